@@ -8,6 +8,7 @@ import (
 	"path/filepath"
 	"strings"
 
+	"verif/harness/run"
 	"verif/harness/sched/instr"
 )
 
@@ -67,7 +68,7 @@ func buildC14Driver() (string, error) {
 			out[orig] = dst
 		}
 	}
-	here := "/verif/harness/sched/verifrt"
+	here := filepath.Join(run.VerifDir, "harness", "sched", "verifrt")
 	out["/repo/verifrt/rt.go"] = filepath.Join(here, "rt.go")
 	out["/repo/verifrt/sync/sync.go"] = filepath.Join(here, "sync", "sync.go")
 	out["/repo/verifrt/atomic/atomic.go"] = filepath.Join(here, "atomic", "atomic.go")
@@ -78,7 +79,7 @@ func buildC14Driver() (string, error) {
 	}
 	bin := filepath.Join(scratch, "c14drv")
 	cmd := exec.Command("go", "build", "-tags", "verif", "-overlay", ovPath, "-o", bin, "./cmd/c14drv")
-	cmd.Dir = "/verif/harness"
+	cmd.Dir = filepath.Join(run.VerifDir, "harness")
 	if o, err := cmd.CombinedOutput(); err != nil {
 		return "", fmt.Errorf("build of the instrumented driver failed: %v\n%s", err, o)
 	}
@@ -100,7 +101,7 @@ func c14RacePass(n int) (string, error) {
 	}
 	args = append(args, "-o", bin, "./cmd/c14race")
 	cmd := exec.Command("go", args...)
-	cmd.Dir = "/verif/harness"
+	cmd.Dir = filepath.Join(run.VerifDir, "harness")
 	if o, err := cmd.CombinedOutput(); err != nil {
 		return "", fmt.Errorf("race build failed: %v\n%s", err, o)
 	}
@@ -151,8 +152,8 @@ func c14External(args []string) int {
 		}
 		os.Setenv("VERIF_C14_RACE_RUNS", fmt.Sprint(n))
 		if problem != "" {
-			os.MkdirAll("/verif/replays", 0o755)
-			path := "/verif/replays/C14-race-pass.json"
+			os.MkdirAll(filepath.Join(run.VerifDir, "replays"), 0o755)
+			path := filepath.Join(run.VerifDir, "replays", "C14-race-pass.json")
 			b, _ := json.MarshalIndent(map[string]any{"property": "C14", "check": "free-running-race-pass", "signature": "data-race:free-running", "detail": problem}, "", " ")
 			os.WriteFile(path, b, 0o644)
 			fmt.Printf("VIOLATION property=C14 replay=%s\n  free-running pass under the race detector (fresh processes, real goroutines):\n  %s\n", path, strings.ReplaceAll(problem, "\n", "\n  "))
@@ -174,7 +175,7 @@ func c14External(args []string) int {
 				return code
 			}
 			fmt.Printf("VIOLATION property=C14 replay=/verif/replays/C14-crash.json\n  explorer process died with exit code %d\n", code)
-			os.WriteFile("/verif/replays/C14-crash.json", []byte(fmt.Sprintf("{\"property\":\"C14\",\"signature\":\"crash\",\"detail\":\"explorer died with exit code %d\"}\n", code)), 0o644)
+			os.WriteFile(filepath.Join(run.VerifDir, "replays", "C14-crash.json"), []byte(fmt.Sprintf("{\"property\":\"C14\",\"signature\":\"crash\",\"detail\":\"explorer died with exit code %d\"}\n", code)), 0o644)
 			return 1
 		}
 		fmt.Fprintf(os.Stderr, "CHECK-ERROR %v\n", err)
